@@ -131,9 +131,9 @@ Definition ins_post (m : imode) (s : state) (e : entry) (res : state * out * Z) 
              \/ (Permutation (abs_of s') (e :: abs_of s) /\ r = ok_out m)
              \/ (abs_of s' = abs_of s /\ r = RErr /\ ~ In (fst e) (keys (abs_of s)) /\ exists c, In c (e :: abs_of s) /\ ~ half_okP V vlen c)).
 
-(* the only irregular outcome left: the zero-separator panic (finding F-C28-8) *)
+(* every insert from a well-formed tree is regular *)
 Definition ins_res_ok (m : imode) (s : state) (e : entry) (res : state * out * Z) : Prop :=
-  (snd res = F_ZSEP /\ snd (fst res) = RPanic) \/ (snd res = 0 /\ ins_post m s e res).
+  snd res = 0 /\ ins_post m s e res.
 
 Lemma slow_insert_ok m (s : state) (e : entry) :
   Inv s -> cell_fits V vlen e -> (m = MAppend -> forall x, In x (abs_of s) -> klt (fst x) (fst e)) ->
@@ -143,7 +143,7 @@ Proof.
   assert (HB : bounded h None None (root s)) by exact HI.
   pose proof (ins_ok V vlen vlen_nonneg h m true (root s) e (npages s) None None HB I I Hfit Happ) as Hok.
   destruct (ins V vlen h m true (root s) e (npages s)) as [t np | L sp R np | np | np | er]; cbn [BTreeLeafIns.ires_ok] in Hok.
-  - destruct Hok as [Hb Hp]. right. cbn [fst snd]. split; [reflexivity|]. unfold ins_post. cbn [fst snd].
+  - destruct Hok as [Hb Hp]. cbn [fst snd]. split; [reflexivity|]. unfold ins_post. cbn [fst snd].
     split; [eapply Inv_of_bounded; exact Hb|]. right; left.
     split; [|destruct m; reflexivity]. rewrite (abs_of_bounded _ _ _ _ Hb). exact Hp.
   - destruct Hok as (HL & HR & _ & _ & Hsf & Hp). cbn [build_kids ipos].
@@ -154,13 +154,13 @@ Proof.
     { cbn [BTreeInv.bounded BTreeInv.kids_bounded fst snd]. split.
       - rewrite ifree_cons. cbn [fst]. unfold BTree.kid in *. lia.
       - repeat split; assumption. }
-    right. cbn [fst snd]. split; [reflexivity|]. unfold ins_post. cbn [fst snd]. split; [eapply Inv_of_bounded; exact Hb|]. right; left.
+    cbn [fst snd]. split; [reflexivity|]. unfold ins_post. cbn [fst snd]. split; [eapply Inv_of_bounded; exact Hb|]. right; left.
     split; [|destruct m; reflexivity]. rewrite (abs_of_bounded _ _ _ _ Hb), abs_node, kabs_cons, kabs_nil. cbn [snd]. exact Hp.
-  - right. cbn [fst snd]. split; [reflexivity|]. unfold ins_post. cbn [fst snd]. split; [exact HI|]. left.
+  - cbn [fst snd]. split; [reflexivity|]. unfold ins_post. cbn [fst snd]. split; [exact HI|]. left.
     split; [exact Hok|]. split; [reflexivity | destruct m; reflexivity].
-  - right. cbn [fst snd]. split; [reflexivity|]. unfold ins_post. cbn [fst snd]. split; [exact HI|]. right; right.
+  - cbn [fst snd]. split; [reflexivity|]. unfold ins_post. cbn [fst snd]. split; [exact HI|]. right; right.
     split; [reflexivity|]. split; [reflexivity | exact Hok].
-  - left. cbn [fst snd]. rewrite Hok. split; reflexivity.
+  - contradiction.
 Qed.
 
 Lemma op_insert_ok m (s : state) (e : entry) :
@@ -204,7 +204,7 @@ Proof.
       apply (rm_route_above (depth V (root s)) None None (root s) (fst e) c0 HB); [unfold l in Ec; rewrite Ec; left; reflexivity|].
       apply Hall. left. reflexivity. }
     destruct (fast_ok _ None None (root s) e HB Hrm I I Hall Hroom) as [H1 H2].
-    right. cbn [fst snd]. split; [reflexivity|]. unfold ins_post. cbn [fst snd]. split; [eapply Inv_of_bounded; exact H1|]. right; left.
+    cbn [fst snd]. split; [reflexivity|]. unfold ins_post. cbn [fst snd]. split; [eapply Inv_of_bounded; exact H1|]. right; left.
     split; [|symmetry; exact Hm]. rewrite (abs_of_bounded _ _ _ _ H1). exact H2.
 Qed.
 
